@@ -202,7 +202,7 @@ PROPS = {
              "R-SIBLING(instrumenter), R-COUPLED-STATE, R-WHOMAYCALL.",
              "visit-sequence equality over all components and skip maps.",
              "sibling effect summaries"),
-    "C27": P([NEST, RECD, FULLIT, ("component", "variant_method_tables", {}), ("component", "section_pairing", {}), SCRATCH],
+    "C27": P([("component", "name_section_guard", {}), NEST, RECD, FULLIT, ("component", "variant_method_tables", {}), ("component", "section_pairing", {}), SCRATCH],
              "necessary: each defined-type / canonical-function variant is re-encoded through its own builder method; each section tag replays the vector it recorded with its own cursor",
              "R-VARIANT-METHOD (2 + 1 tables, 67 arms), R-SECTION-PAIRING (12 tags), R-LOOP-SCRATCH.",
              "equality of the decoded component for every input (R-NEST-TRACK decides the push/pop discipline of the nesting stack structurally: one level opened per nested-section payload on every path, one closed per End).",
